@@ -35,7 +35,10 @@ impl BlobWriter {
         Ok(())
     }
 
-    pub(crate) fn write_record(&mut self, record: Record) -> AnyResult<()> {
+    pub(crate) fn write_record(&mut self, mut record: Record) -> AnyResult<()> {
+        // Record may be written at another offset than it was read from (e.g. after skipped wrong record):
+        // header must point to the actual position in the output blob
+        record.header = record.header.with_blob_offset(self.written)?;
         bincode::serialize_into(&mut self.file, &record.header).with_context(|| "write header")?;
         let mut written = 0;
         written += bincode::serialized_size(&record.header)?;
